@@ -261,6 +261,9 @@ def run(ctx):
             import importlib
             nu = importlib.import_module("ural.normalize_url")  # (the package attribute of that name is the function)
             for table in ("IRRELEVANT_QUERY_COMBOS", "AMP_QUERY_COMBOS"):
+                if not isinstance(getattr(nu, table, None), dict):
+                    ctx.count("live-table-item:not-applicable")  # the table was renamed / restructured: nothing to read as data
+                    continue
                 for key, vals in sorted(getattr(nu, table, {}).items()):
                     if callable(vals):
                         continue
@@ -269,6 +272,8 @@ def run(ctx):
                         ctx.count("live-table-item")
                         collisions(ctx, fns, a, "http://a.com/x?id=1", "live-table-item", V)
                         collisions(ctx, fns, "http://a.com/x?id=1&%s=%s" % (key.upper(), val), "http://a.com/x?id=1", "live-table-item", V)
+            if not ctx.counters.get("live-table-item"):
+                ctx.count("live-table-item:not-applicable")  # the tables hold nothing readable as data (e.g. predicates instead of value sets)
             ctx.sample("directed", {"pairs": SORT_SPELLING[:2] + ESC_TRACKING[:2]})
         # frames: token sequences in path and query
         from vf.gen.tokens import CORE
